@@ -36,7 +36,7 @@ def handle (line : String) : String :=
     | _, _ => "bad-op"
   | "conn" :: sess :: n :: frames => match sess.toInt?, n.toNat?, frames.mapM parseFrame with
     | some sess, some n, some fs =>
-      let out := runConn { session := sess, buf := newBuf n } fs
+      let out := runConnW { session := sess, buf := newBuf n } fs   -- order of checks as read from the source
       if out.isEmpty then "-" else String.ofList (out.map showEffect)
     | _, _, _ => "bad-op"
   | _ => "bad-op"
